@@ -846,7 +846,8 @@ class XSlicesSpec(PureSpec):
     def always(self):
         return [["xslices.Runs", [1, 2, 2], ["keyeq", 1]], ["xslices.Runs", [1], ["keyeq", 1]], ["xslices.Runs", [1, 1, 2], ["keyeq", 1]],
                 ["xslices.Chunk", [1, 2], -2], ["xslices.Chunk", [1, 2, 3], -5], ["xslices.Chunk", [], -1], ["xslices.Chunk", [1, 2], 0],
-                ["xslices.Chunk", [1, 2], MAXINT], ["xslices.Chunk", [1, 2, 3], MAXINT - 1], ["xslices.Chunk", [1], MAXINT], ["xslices.Chunk", [1, 2, 3], 2]]
+                ["xslices.Chunk", [1, 2], MAXINT], ["xslices.Chunk", [1, 2, 3], MAXINT - 1], ["xslices.Chunk", [1], MAXINT], ["xslices.Chunk", [1, 2, 3], 2],
+                ["xslices.Shrink", [1, 2, 3], [9, 9], MAXINT], ["xslices.Shrink", [1], [], MAXINT - 1], ["xslices.Shrink", [1, 2, 3], [9], MAXINT - 3]]
 
     def universes(self, rng, tier):
         L = 5
@@ -882,7 +883,9 @@ class XSlicesSpec(PureSpec):
                                 for v in ([], [7], [7, 8], [7, 8, 6])],
                                big(lambda: (lambda s: ["xslices.Insert", s, [9] * rng.randint(0, 8), rng.randint(-1, len(s) + 1), rand_slice(rng, 6)])(rand_slice(rng, 20))))
         for fn in ("Shrink", "Grow"):
-            u["xslices." + fn] = ([["xslices." + fn, s, [9] * e, n] for s in sl3 for e in range(4) for n in range(-2, 6)],
+            u["xslices." + fn] = ([["xslices." + fn, s, [9] * e, n] for s in sl3 for e in range(4) for n in range(-2, 6)] +
+                                  ([["xslices.Shrink", s, [9] * e, n] for s in ([], [1], [1, 2, 3]) for e in (0, 2) for n in (MAXINT, MAXINT - 1, MAXINT - 3, MININT)]
+                                   if fn == "Shrink" else []),
                                   big(lambda fn=fn: ["xslices." + fn, rand_slice(rng, 20), [9] * rng.randint(0, 30), rng.randint(-1, 35)]))
         u["xslices.Equal"] = ([["xslices.Equal", s, t] for s in sl3 for t in sl3],
                               big(lambda: (lambda s: ["xslices.Equal", s, rng.choice([list(s), s[:-1], s + [1], rand_slice(rng)])])(rand_slice(rng))))
